@@ -266,6 +266,9 @@ structure WavFile where
   rate : Nat
   data : Bytes
 
+/-- `Wave_read._read_fmt_chunk`: `self._sampwidth = (wBitsPerSample + 7) // 8` -/
+def headerSampwidth (hdrBits : Nat) : Nat := (hdrBits + 7) / 8
+
 structure WavObs (K : Type) where
   rate : Nat
   channels : Nat
